@@ -130,6 +130,62 @@ func main() {
 		if k := holds("doSyncLocked"); k == "RLock" {
 			lib.Fatalf("%s: doSyncLocked takes only a read lock", file)
 		}
+		// --- which REST strategy the control plane registers for ratelimitconditions (rest.go), and whether a write to
+		// the MAIN resource (all the limiter's store does) persists the status
+		const restFile = "pkg/gateway/controlplane/registry/proxy/rest/rest.go"
+		const stratFile = "staging/src/github.com/kubewharf/apiserver-runtime/pkg/registry/strategy.go"
+		rf := g.ParseFile(restFile)
+		strategyExpr := ""
+		for _, d := range rf.Decls {
+			fd, ok := d.(*ast.FuncDecl)
+			if !ok || fd.Name.Name != "newRateLimitConditionOption" || fd.Body == nil {
+				continue
+			}
+			ast.Inspect(fd.Body, func(n ast.Node) bool {
+				if c, ok := n.(*ast.CallExpr); ok && strings.HasSuffix(src(g, c.Fun), ".SetRESTStrategy") && len(c.Args) == 2 {
+					strategyExpr = src(g, c.Args[1])
+				}
+				return true
+			})
+		}
+		if strategyExpr == "" {
+			lib.Fatalf("%s: newRateLimitConditionOption no longer calls SetRESTStrategy", restFile)
+		}
+		// resolve a shared singleton to its constructor call
+		ctor := strategyExpr
+		if strings.HasPrefix(ctor, "registry.") && !strings.Contains(ctor, "(") {
+			name := strings.TrimPrefix(ctor, "registry.")
+			ctor = ""
+			sf := g.ParseFile(stratFile)
+			ast.Inspect(sf, func(n ast.Node) bool {
+				if vs, ok := n.(*ast.ValueSpec); ok {
+					for i, id := range vs.Names {
+						if id.Name == name && i < len(vs.Values) {
+							ctor = "registry." + src(g, vs.Values[i])
+						}
+					}
+				}
+				return true
+			})
+			if ctor == "" {
+				lib.Fatalf("%s: strategy %s not found in %s", restFile, strategyExpr, stratFile)
+			}
+		}
+		var subStatus string
+		if n, _ := fmt.Sscanf(strings.ReplaceAll(ctor, " ", ""), "registry.NewDefaultRESTStrategy(%s", &subStatus); n != 1 || !strings.Contains(subStatus, ",") {
+			lib.Fatalf("%s: strategy of ratelimitconditions is %q, not a registry.NewDefaultRESTStrategy(namespaced, subStatus)", restFile, ctor)
+		}
+		subStatus = strings.TrimSuffix(strings.SplitN(subStatus, ",", 2)[1], ")")
+		if subStatus != "true" && subStatus != "false" {
+			lib.Fatalf("%s: cannot read subStatus of %q", restFile, ctor)
+		}
+		// DefaultRESTStrategy with subStatus: PrepareForCreate clears .status, PrepareForUpdate keeps the stored .status
+		sfSrc := src(g, g.ParseFile(stratFile))
+		if !strings.Contains(sfSrc, "s.subStatus && hasStatus") {
+			lib.Fatalf("%s: DefaultRESTStrategy no longer guards its status handling by subStatus", stratFile)
+		}
+		fmt.Fprintf(&out, "/-! %s: the control plane serves ratelimitconditions with %s -/\n", restFile, strings.ReplaceAll(strategyExpr, "-/", ""))
+		fmt.Fprintf(&out, "def mainResourceWritesPersistStatus : Bool := %v -- subStatus = %s\n", subStatus == "false", subStatus)
 		out.WriteString("end KG.Gen.C19\n")
 		g.Emit("C19.lean", out.String())
 	})
